@@ -241,11 +241,11 @@ template <> z_interval_t z_interval_t::AShr(const z_interval_t &x) const {
       // huge shifts.  We limit the number of times the loop is run
       // to avoid wasting too much time on it.
       if (k <= 128) {
-        z_number factor = 1;
-        for (int i = 0; k > i; i++) {
-          factor *= 2;
-        }
-        return (*this) / factor;
+        // x >> k rounds towards minus infinity (operator/ truncates) and
+        // is monotone, so it can be applied to the bounds.
+        return interval_t(
+            _lb.is_finite() ? bound_t(*(_lb.number()) >> k) : _lb,
+            _ub.is_finite() ? bound_t(*(_ub.number()) >> k) : _ub);
       }
     }
     return top();
